@@ -130,6 +130,7 @@ type RaftTune struct {
 	TrailingLogs      uint64
 	SnapshotInterval  time.Duration
 	MaxAppendEntries  int
+	BackupsRotate     int
 }
 
 // RaftConfig returns a raft config for a peer folder.
@@ -157,6 +158,9 @@ func RaftConfig(dir string, peers []peer.ID, t RaftTune) *raft.Config {
 	}
 	if t.TrailingLogs > 0 {
 		cfg.RaftConfig.TrailingLogs = t.TrailingLogs
+	}
+	if t.BackupsRotate > 0 {
+		cfg.BackupsRotate = t.BackupsRotate
 	}
 	if t.MaxAppendEntries > 0 {
 		cfg.RaftConfig.MaxAppendEntries = t.MaxAppendEntries
